@@ -61,6 +61,7 @@ uint64_t myth_verif_idle_iterations(void);
 
 /* virtual clock (used by hr_gettime when enabled) */
 void myth_verif_vclock_enable(long sec, long nsec, long step_ns);
+void myth_verif_vclock_enable2(long sec, long nsec, long step_sec, long step_nsec);
 void myth_verif_vclock_disable(void);
 void myth_verif_vclock_set_step(long step_ns);
 void myth_verif_vclock_peek(struct timespec * ts);  /* no advance */
